@@ -487,6 +487,26 @@ def build(run):
     case("__getitem__[ct[j,i] swapped]", (lambda: ([C.ComponentTensor(Opq("s", (), (I, J), (3, 3)), MultiIndex((I, J)))], lambda o: o[0][J, I])),
          lambda w, o, c, e: D(w, o[0], (e[J.count()], e[I.count()]), e), lambda o: ((),) + fi_of([(I.count(), 3), (J.count(), 3)]))
 
+    # a component tensor over an INDEXED LIST TENSOR whose entries carry a free index, indexed again: every combination of which index the component tensor
+    # binds (the list position, the entries' index, both, in either order) and of fixed / free outer indices
+    p2, q2 = Opq("p", (2,)), Opq("q", (2,))
+    mkL = lambda: as_vector([2 * p2[I], 3 * q2[I]])     # noqa: E731   (list position -> entry with free index I)
+    Lval = lambda w, pos, i_: N.mul(2, D(w, p2, (i_,))) if pos == 0 else N.mul(3, D(w, q2, (i_,)))     # noqa: E731
+    case("__getitem__[as_tensor(L[j],(i,))[0], L entries carry i]", (lambda: ([], lambda o: as_tensor(mkL()[J], (I,))[0])),
+         lambda w, o, c, e: Lval(w, e[J.count()], 0), lambda o: ((),) + fi_of([(J.count(), 2)]), allow_refusal=False)
+    case("__getitem__[as_tensor(L[j],(i,))[1], L entries carry i]", (lambda: ([], lambda o: as_tensor(mkL()[J], (I,))[1])),
+         lambda w, o, c, e: Lval(w, e[J.count()], 1), lambda o: ((),) + fi_of([(J.count(), 2)]), allow_refusal=False)
+    case("__getitem__[as_tensor(L[j],(j,))[1], L entries carry i]", (lambda: ([], lambda o: as_tensor(mkL()[J], (J,))[1])),
+         lambda w, o, c, e: Lval(w, 1, e[I.count()]), lambda o: ((),) + fi_of([(I.count(), 2)]), allow_refusal=False)
+    case("__getitem__[as_tensor(L[j],(i,j))[1,0]]", (lambda: ([], lambda o: as_tensor(mkL()[J], (I, J))[1, 0])),
+         lambda w, o, c, e: Lval(w, 0, 1), lambda o: ((), (), ()), allow_refusal=False)
+    case("__getitem__[as_tensor(L[j],(j,i))[1,0]]", (lambda: ([], lambda o: as_tensor(mkL()[J], (J, I))[1, 0])),
+         lambda w, o, c, e: Lval(w, 1, 0), lambda o: ((), (), ()), allow_refusal=False)
+    case("__getitem__[as_tensor(L[1],(i,))[0]]", (lambda: ([], lambda o: as_tensor(mkL()[1], (I,))[0])),
+         lambda w, o, c, e: Lval(w, 1, 0), lambda o: ((), (), ()), allow_refusal=False)
+    case("__getitem__[as_tensor(L[j],(i,)) whole]", (lambda: ([], lambda o: as_tensor(mkL()[J], (I,)))),
+         lambda w, o, c, e: Lval(w, e[J.count()], c[0]), lambda o: ((2,),) + fi_of([(J.count(), 2)]), allow_refusal=False)
+
     v3 = Opq("v", (3,))
     case("__truediv__[v/s]", (lambda: ([v3, Opq("s")], lambda o: o[0] / o[1])),
          lambda w, o, c, e: (w.require(N.cmp("!=", D(w, o[1]), 0)), N.div(D(w, o[0], c), D(w, o[1])))[1], lambda o: ((3,), (), ()))
